@@ -60,12 +60,21 @@ MANIFEST = dict(
          "(the note section holds exactly the rows, nothing merged or dropped), C05_lane_pairs (any listing of a lane's hits and "
          "head/tail pairs is read back to them), find_lcm_spec, slot arithmetic, line shape, no-merge, codecs; layout injectivity by "
          "vm_compute on the regenerated tables. Without the ':.3f' guard the statement is refuted by a machine-checked witness = KNOWN "
-         "finding bpm-3f-rounding.",
+         "finding bpm-3f-rounding. Tempo rows in ANY order: C05_bms_write_denotes_any_order -- for every chart of write_dom and EVERY "
+         "permutation of its tempo rows (C10's sort_any_order: sorted + permutation + pairwise distinct offsets) the written lines denote "
+         "the chart: hits/holds as above, the file's tempo changes are the rows in time order at the in-memory times and tempos, the tempo "
+         "at position 0 is that of the earliest row (the channel-08 object the writer puts at measure 0 position 0 replaces '#BPM', which "
+         "prints the FIRST row); the same on the decidable write_dom_any and for the round trip. 'The #BPM header shows the initial tempo' "
+         "is refuted for rows out of time order (C05_header_bpm_initial_refuted; real code replayed: '#BPM 150.0' for a chart starting at "
+         "120, read back correctly) and proved under the guard first_row_earliest. The reader's guards of the written file are derived from the chart "
+         "alone (C05_written_read_guards: note lines in measure order, tempo rows on measure lines, hence the origin tempo object is the first "
+         "tempo object listed and the tempo objects are pairwise on the grid); C05_bms_write_read_guarded leaves text_domb as the only "
+         "hypothesis of the round trip.",
     note="Trusted: Coq kernel+VM, generator/serialiser, gen_tables, shift_jis and str(float) oracles. Not proved: that write_dom implies "
          "the reader's text-level domain for the written text (false in general: titles with surrounding blanks, lower-case sample ids; "
-         "it is a decidable hypothesis of C05_bms_write_read, shown to hold on a concrete chart); charts whose tempo rows are not in "
-         "time order (checked per run by correspondence + oracle only); float-stream rounding (measured, not proved). About 2/3 of the "
-         "generated quick cases lie in write_dom.",
+         "it is a decidable hypothesis of C05_bms_write_read, shown to hold on concrete charts with rows in and out of time order); "
+         "float-stream rounding (measured, not proved). 200 of 283 generated quick cases (270 wf) lie in write_dom_any, the domain of the "
+         "any-order theorem (188 in write_dom).",
     technique="Coq executable model + reference interpreter + vm_compute correspondence against the implementation",
     design="4/C05")
 
